@@ -196,10 +196,11 @@ def from_isodatetime(date_time: str | None):
                 kwargs[key] = parse_timezone(value)
             elif key == 'second':
                 if '.' in value:
-                    secs = float(value)
-                    kwargs[key] = int(secs)
-                    secs -= int(secs)
-                    kwargs['microsecond'] = int(1000000.0 * secs)
+                    # parse the fraction as text: converting via float loses
+                    # a microsecond for many values (e.g. 16.387230)
+                    whole, fraction = value.split('.', 1)
+                    kwargs[key] = int(whole, 10)
+                    kwargs['microsecond'] = int((fraction + '000000')[:6], 10)
                 else:
                     kwargs[key] = int(value, 10)
             else:
